@@ -63,8 +63,20 @@ def impl_init():
     from pyp0f.net.packet import Direction
 
     def impl(c):
+        raw = bytes.fromhex(c["payload"])
+        k = len(raw) % 3               # every accepted buffer type; a bytearray / ReceiveBuffer must come back unconsumed
+        if k == 0:
+            buf = raw
+        elif k == 1:
+            buf = bytearray(raw)
+        else:
+            from h11._receivebuffer import ReceiveBuffer
+            buf = ReceiveBuffer()
+            buf += raw
         try:
-            d, v, hs = read_payload(bytes.fromhex(c["payload"]))
+            d, v, hs = read_payload(buf)
+            if bytes(buf) != raw:
+                return {"exc": "the caller's buffer was consumed or altered"}
         except PacketError:
             return {"err": "PacketError"}
         return {"ok": ["request" if d == Direction.CLIENT_TO_SERVER else "response", v, [[bytes(h.name).hex(), bytes(h.value).hex()] for h in hs]]}
